@@ -379,7 +379,8 @@ GetHistory     == Getters /\ \E k \in Keys : \E m \in {"stack", "flat"} :
                     /\ Step(s, Lbl("get_history", k, 0, IF m = "flat" THEN -1 ELSE 0, FALSE))
 \* get_history(k) of a ragged history: raises, or returns fresh cells (heap unchanged either way);
 \* seeded variant: the members of the returned container are the committed batches themselves
-GetHistoryRagged == Getters /\ \E k \in AK : Ragged(s, k) /\
+\* (not gated by Getters: only enabled in ragged states, and part of the enumerated sequences)
+GetHistoryRagged == \E k \in AK : Ragged(s, k) /\
                     Step(IF SeededRagged THEN [s EXCEPT !.ext = @ \cup Range(H(s, k))] ELSE s,
                          Lbl("get_history_ragged", k, 0, 0, FALSE))
 GetHistoryIdx  == Getters /\ \E k \in Keys : \E i \in 1..Len(H(s, k)) : Step(s, Lbl("get_history", k, 0, i, FALSE))
